@@ -2,11 +2,13 @@ package props
 
 import (
 	"context"
+	"errors"
 	"fmt"
 	"os"
 	"reflect"
 	"strings"
 	"sync"
+	"time"
 
 	"deps.dev/util/resolve"
 	"deps.dev/util/resolve/maven"
@@ -135,6 +137,33 @@ func init() {
 			s.Yield(kernel.KindLock, point, true)
 		}
 	}
+	// virtual time: every clock read, sleep, timer and context deadline of
+	// the code under test goes through the simulator's clock
+	verifhook.NowUs = kernel.VirtualNow
+	verifhook.SleepUs = func(us int64, point string) bool {
+		if s := kernel.Cur(); s != nil && s.Sleep(us, point) {
+			return true
+		}
+		kernel.AdvanceClock(us) // outside a simulated phase time passes at once
+		return true
+	}
+	verifhook.SpawnAt = func(us int64) int {
+		if s := kernel.Cur(); s != nil {
+			return s.SpawnTimer(us)
+		}
+		return -1
+	}
+	verifhook.Hasten = func(h int) {
+		if s := kernel.Cur(); s != nil {
+			s.Hasten(h)
+		}
+	}
+	verifhook.Alone = func() bool {
+		if s := kernel.Cur(); s != nil {
+			return s.OnlyTimersLive() || s.IsAborted()
+		}
+		return true
+	}
 }
 
 type c05Op struct {
@@ -157,6 +186,8 @@ type c05Op struct {
 	FaultLabel int // aimed at calls of callKinds[FaultLabel]; 0: any call
 	fired      bool
 	start, end uint64
+	// virtual time that passes before the operation starts (clock jump)
+	Gap int64 `json:"gap_us,omitempty"`
 }
 
 func (op *c05Op) faultText(at int) string {
@@ -176,6 +207,15 @@ func (op *c05Op) faultText(at int) string {
 
 // canonText canonicalises g in place, as a caller comparing graphs would, and
 // returns its text before and after (with Canon's error, if any).
+// endedByDeadline reports whether a resolution says of itself that it ran
+// into a deadline.
+func endedByDeadline(g *resolve.Graph, err error) bool {
+	if err != nil && (errors.Is(err, context.DeadlineExceeded) || strings.Contains(err.Error(), context.DeadlineExceeded.Error())) {
+		return true
+	}
+	return g != nil && strings.Contains(g.Error, context.DeadlineExceeded.Error())
+}
+
 func canonText(g *resolve.Graph) (raw, canon string) {
 	if g == nil {
 		return "", ""
@@ -465,6 +505,23 @@ func RunC05(t *kernel.Tape, o Opts) *Result {
 	var cfg kernel.Config
 	if concurrent {
 		cfg = drawSched(t, []string{"MatchingVersions", "Requirements", "Versions", "Version", "op"})
+	}
+	// Time. In a third of the histories client calls take (virtual) time as
+	// they do in the concurrent runs, and in a third of all runs the clock
+	// jumps between operations (a millisecond ... a month): a resolver that
+	// reads the clock, sets deadlines or lets entries expire meets slow
+	// calls and long pauses. References always run with a fast client.
+	if !concurrent && t.Bool(1, 3) {
+		cfg.Latency = 1 + t.Choose(kernel.NumLat-1)
+	}
+	if t.Bool(1, 3) {
+		for _, ops := range programs {
+			for _, op := range ops {
+				if t.Bool(1, 2) {
+					op.Gap = [...]int64{1e3, 1e6, 60e6, 3600e6, 30 * 86400e6}[t.Choose(5)]
+				}
+			}
+		}
 	}
 	// npm and Maven tasks normally share one resolver; in a quarter of the
 	// concurrent runs they are spread over two resolvers on the one client
@@ -759,6 +816,13 @@ func RunC05(t *kernel.Tape, o Opts) *Result {
 		if afterFault {
 			probe(res, "clean_ops_judged_after_an_aborted_op", 1)
 		}
+		if kernel.TimersStarted() > 0 && endedByDeadline(op.g, op.err) {
+			// the code under test set itself a deadline and says so: like an
+			// aborted operation, what it returns is its own business (a graph
+			// that silently differs is not)
+			probe(res, "ops_ended_by_a_deadline_of_the_code_under_test", 1)
+			return
+		}
 		if op.panicV != nil {
 			violate(res, "panic", "panic:"+sname, step, "%s Resolve(%s %s) panicked: %v", who, root.Name, root.Version, op.panicV)
 			return
@@ -792,13 +856,13 @@ func RunC05(t *kernel.Tape, o Opts) *Result {
 		sc.cancels[slot] = cancel
 		sc.calls[slot] = 0
 		sc.plan(slot, op.Fault, op.FaultLabel, faultAt(op), 2+op.FaultFrac%3)
-		op.start = phase<<32 | sc.s.Stamp()
+		op.start = phase<<32 | sc.sched().Stamp()
 		g, err, pv := resolveOnce(r, octx, spec.VK(op.Root.P, op.Root.V))
 		if sc.fired != nil {
 			op.fired = sc.fired[slot]
 		}
 		sc.plan(slot, faultNone, 0, 0, 1)
-		op.end = phase<<32 | sc.s.Stamp()
+		op.end = phase<<32 | sc.sched().Stamp()
 		op.panicV = pv
 		if pv == nil {
 			op.g, op.err = g, err
@@ -818,7 +882,7 @@ func RunC05(t *kernel.Tape, o Opts) *Result {
 	// History prefix (serial, before the fork) on the live objects.
 	if len(prefixOps) > 0 {
 		ps := kernel.NewSched(t, kernel.Config{Mode: kernel.ModeSerial})
-		sc.s = ps
+		sc.setSched(ps)
 		okRun := ps.Run([]func(*kernel.Task){func(*kernel.Task) {
 			for _, op := range prefixOps {
 				runOp(perTask[0], 0, op)
@@ -842,7 +906,7 @@ func RunC05(t *kernel.Tape, o Opts) *Result {
 
 	// Main phase.
 	s := kernel.NewSched(t, cfg)
-	sc.s = s
+	sc.setSched(s)
 	phase = 1
 	for _, ops := range programs {
 		judged = append(judged, ops...)
@@ -852,6 +916,9 @@ func RunC05(t *kernel.Tape, o Opts) *Result {
 		i := i
 		fns[i] = func(*kernel.Task) {
 			for j, op := range programs[i] {
+				if op.Gap > 0 {
+					s.Sleep(op.Gap, "clock-jump")
+				}
 				s.Yield(kernel.KindOp, "op-start", false)
 				s.SetNote(i, noteOp, int64(j+1))
 				s.SetNote(i, noteFired, 0)
@@ -885,9 +952,19 @@ func RunC05(t *kernel.Tape, o Opts) *Result {
 		})
 	}
 	if fClient != nil {
-		fClient.s = s
+		fClient.setSched(s)
 	}
 	okRun := s.Run(fns)
+	if !okRun && s.Deadlock && s.CallersDone(len(fns)) {
+		// Every caller has returned; what is blocked for good are goroutines
+		// the code under test started and left behind. That is no violation
+		// of this property by itself, and the run is judged as usual.
+		s.JoinCallers(len(fns))
+		ids, _ := s.BlockedTasks()
+		probe(res, "goroutines_left_blocked_for_good", len(ids))
+		probe(res, "runs_judged_with_goroutines_left_behind", 1)
+		okRun = true
+	}
 	if okRun {
 		for _, c := range sc.cancels {
 			if c != nil {
@@ -952,7 +1029,7 @@ func RunC05(t *kernel.Tape, o Opts) *Result {
 	// the resolvers that ran aborted operations.
 	if len(epilogue) > 0 {
 		es := kernel.NewSched(t, kernel.Config{Mode: kernel.ModeSerial})
-		sc.s = es
+		sc.setSched(es)
 		phase = 2
 		okE := es.Run([]func(*kernel.Task){func(*kernel.Task) {
 			for k, op := range epilogue {
@@ -979,8 +1056,17 @@ func RunC05(t *kernel.Tape, o Opts) *Result {
 			return res
 		}
 		res.Yields += es.Yields
-		sc.s = s
+		sc.setSched(s)
 	}
+	for _, ops := range programs {
+		for _, op := range ops {
+			if op.Gap > 0 {
+				fault(res, "clock_jumps_between_operations", 1)
+			}
+		}
+	}
+	probe(res, "virtual_timers_of_code_under_test", s.Timers)
+	probe(res, "virtual_sleeps_of_code_under_test", s.Sleeps)
 	fault(res, "reordered_completions", s.Reorders)
 	fault(res, "client_call_preemptions", s.MidOpSwitch)
 	fault(res, "lock_point_preemptions", s.LockPreempt)
@@ -1128,7 +1214,11 @@ func RunC05(t *kernel.Tape, o Opts) *Result {
 			var p []string
 			for _, op := range ops {
 				vk := spec.VK(op.Root.P, op.Root.V)
-				p = append(p, "Resolve "+vk.Name+" "+vk.Version+op.faultText(faultAt(op)))
+				gap := ""
+				if op.Gap > 0 {
+					gap = fmt.Sprintf("[clock +%v] ", time.Duration(op.Gap)*time.Microsecond)
+				}
+				p = append(p, gap+"Resolve "+vk.Name+" "+vk.Version+op.faultText(faultAt(op)))
 				scn.Results[vk.Name+" "+vk.Version] = op.sig
 			}
 			scn.Programs = append(scn.Programs, p)
